@@ -554,3 +554,90 @@ def run_idcap(prog, ctx=None):
     if not n:
         raise Broken("mpt_message_buf2id: no refusal found")
     return res
+
+
+def _trailing_array(prog, f, tid, depth=0):
+    """(path, byte size) of the array an object of record type tid ends in (through last members that are records)"""
+    T = f.T(tid)
+    if T.get("k") != "record" or depth > 4:
+        return None
+    r = prog.records.get(T.get("name"))
+    if not r or not r.get("fields"):
+        return None
+    last = r["fields"][-1]
+    LT = r["unit"].types[last["t"]]
+    if LT.get("k") == "array":
+        return (last["n"], LT.get("sz"))
+    if LT.get("k") == "record":
+        r2 = prog.records.get(LT.get("name"))
+        if r2 and r2.get("fields"):
+            l2 = r2["fields"][-1]
+            L2 = r2["unit"].types[l2["t"]]
+            if L2.get("k") == "array":
+                return (last["n"] + "." + l2["n"], L2.get("sz"))
+    return None
+
+
+def run_flextail(prog, ctx=None):
+    """FLEXTAIL: an object that ends in a small array A and is allocated as `malloc(sizeof(*p) + T)` provides sizeof(A) + T
+    bytes behind the start of A.  Where T is computed from a capacity by subtracting a sizeof (`cap - sizeof(S)`), S is no
+    larger than A: subtracting the size of anything bigger (the record that contains A) leaves the object short of the
+    capacity that is stored in it, and the bytes behind the allocation are read or written as part of A."""
+    res = Result("FLEXTAIL")
+    files = set(ctx.get("files", [])) if ctx else None
+    for f in funcs_of(prog, files):
+        defs = {}
+        for b, i, n in f.walk_all():
+            if n.get("k") == "bin" and n.get("op") in ("=", "-="):
+                l = strip(n["a"], lvalue_to_rvalue=False)
+                if l.get("k") == "ref" and "id" in l["d"]:
+                    defs.setdefault(l["d"]["id"], []).append(n)
+            elif n.get("k") == "decl":
+                for v in n["vars"]:
+                    if v.get("init") is not None:
+                        defs.setdefault(v["id"], []).append({"k": "bin", "op": "=", "a": None, "b": v["init"]})
+        for b, i, n in f.walk_all():
+            if not (n.get("k") == "bin" and n.get("op") == "=" or n.get("k") == "decl"):
+                continue
+            pairs = []
+            if n.get("k") == "decl":
+                pairs = [(v.get("t"), v["init"]) for v in n["vars"] if v.get("init") is not None]
+            else:
+                l = strip(n["a"], lvalue_to_rvalue=False)
+                pairs = [(l.get("t"), n["b"])]
+            for vt, rhs in pairs:
+                r = strip(rhs, all_casts=True)
+                if not (r.get("k") == "call" and callee_name(r) in ("malloc", "realloc") and r.get("args")):
+                    continue
+                VT = f.T(vt)
+                if VT.get("k") != "ptr":
+                    continue
+                ta = _trailing_array(prog, f, VT.get("to"))
+                sz = strip(r["args"][-1], all_casts=True)
+                if ta is None or not (sz.get("k") == "bin" and sz.get("op") == "+" and cval(sz) is None):
+                    continue
+                # the variable part of the size
+                tails = []
+                for side in (sz["a"], sz["b"]):
+                    s2 = strip(side, all_casts=True)
+                    if s2.get("k") == "ref" and "id" in s2["d"]:
+                        tails.append(s2["d"]["id"])
+                subs = []
+                for t in tails:
+                    for d in defs.get(t, []):
+                        if d.get("op") == "-=":
+                            for m in walk(d["b"]):
+                                if m.get("k") == "sizeof":
+                                    subs.append((m, d))
+                        for m in walk(d["b"]):
+                            if m.get("k") == "bin" and m.get("op") == "-":
+                                for q in walk(m["b"]):
+                                    if q.get("k") == "sizeof":
+                                        subs.append((q, d))
+                for m, d in subs:
+                    v = cval(m)
+                    ok = v is not None and ta[1] is not None and v <= ta[1]
+                    res.ob("%s:tail of %s at line %s" % (f.qn, f.T(VT.get("to")).get("s"), m.get("l", d.get("l", f.line))), ok, f, m.get("l") or d.get("l") or f.line,
+                           "" if ok else "the tail length is the capacity minus %s bytes, but the object ends in %s of %s bytes: the allocation is %s bytes short of the capacity it records" % (
+                               v, ta[0], ta[1], (v or 0) - (ta[1] or 0)))
+    return res
